@@ -824,11 +824,35 @@ def run(ctx):
     ctx.oblige(f"T2 rejected signatures: the model's _fields_mapping is an error exactly when the generator raises ({len(checks)} evaluations)",
                not failing and not errors and checks, "; ".join((failing + errors)[:6]), "T2")
     run_apis(ctx, jobs)
+    unknown_first(ctx)
+
+
+def search(ctx, broken):
+    """A theorem, pin or correspondence broke and no oracle failed on the regular sample: drive more APIs of every shape
+    (fresh seeds, all subset sizes) and let the direct oracle look for a failing input."""
+    jobs = []
+    i = 10_000
+    while len(jobs) < 18 and i < 10_100:
+        try:
+            req, _ = make_api(env.rng("C05-api", i), ["same", "dep", "sub"][i % 3])
+            jobs.append((f"s{i}", req, i))
+        except apigen.Invalid:
+            pass
+        i += 1
+    ctx.tier = "thorough"
+    run_apis(ctx, jobs)
+    unknown_first(ctx)
+
+
+def unknown_first(ctx):
+    """violations outside the reported candidate-defect classes are listed (and hence printed) first"""
+    ctx.violations.sort(key=lambda v: v.get("signature") is not None)
 
 
 def replay(ctx, rep):
     c = rep.get("case", {})
     if "request_b64" in c:
         run_apis(ctx, [(c.get("tag", "replay"), apigen.req_from_b64(c["request_b64"]), c.get("rindex", 0))])
+        unknown_first(ctx)
     else:
         run(ctx)
